@@ -221,7 +221,16 @@ def _mkrepo(path, branches, tags):
     for b in branches:
         _git(path, "branch", b)
     for t in tags:
-        _git(path, "tag", t)
+        _mktag(path, t)
+
+
+def _mktag(path, t):
+    """a tag on a commit of its own (off every branch), so that `git describe --exact-match` names the tag that was checked out"""
+    head = _git(path, "rev-parse", "--abbrev-ref", "HEAD")
+    _git(path, "checkout", "-q", "--detach")
+    _git(path, "commit", "-q", "--allow-empty", "-m", "tag " + t)
+    _git(path, "tag", t)
+    _git(path, "checkout", "-q", head)
 
 
 def _update_and_compare(ctx, r, rdir, remote, remote_seen, local_seen, tags, v, extra_sig=None, update=None):
@@ -234,7 +243,9 @@ def _update_and_compare(ctx, r, rdir, remote, remote_seen, local_seen, tags, v, 
         (update or r.update)(case["v"])
         head = _git(rdir, "rev-parse", "--abbrev-ref", "HEAD")
         if head == "HEAD":
-            obs = {"r": ["tag", _git(rdir, "describe", "--tags", "--exact-match")]} if False else {"r": ["tag", None]}
+            # detached: on a tag (every tag of the test repositories sits on a commit of its own)
+            p = subprocess.run(["git", "-C", rdir, "describe", "--tags", "--exact-match"], capture_output=True, text=True)
+            obs = {"r": ["tag", p.stdout.strip() if p.returncode == 0 else None]}
         else:
             obs = {"r": ["branch", head]}
     except exceptions.SystemSetupError:
@@ -252,7 +263,7 @@ def _update_and_compare(ctx, r, rdir, remote, remote_seen, local_seen, tags, v, 
             exists = name in remote_seen or name in local_seen
             mm = {"r": ["branch", name]} if exists else {"err": "DataError"}  # e.g. 'master' chosen but no such branch
         else:
-            mm = {"r": ["tag", None]}
+            mm = {"r": ["tag", name]}
     else:
         mm = {"err": m["err"]}
     if mm != obs:
@@ -273,7 +284,8 @@ def _update_and_compare(ctx, r, rdir, remote, remote_seen, local_seen, tags, v, 
             mt = STRICT.match(case["v"])
             M, mi, pa, sf = mt.group(1), mt.group(2), mt.group(3), mt.group(4)
             cands = ([f"v{int(M)}.{int(mi)}.{int(pa)}-{sf}"] if sf else []) + [f"v{int(M)}.{int(mi)}.{int(pa)}", f"v{int(M)}.{int(mi)}", f"v{int(M)}"]
-            exp = {"r": ["tag", None]} if any(c in case["tags"] for c in cands) else {"err": "SystemSetupError"}
+            # most specific matching tag first
+            exp = {"r": ["tag", next(c for c in cands if c in case["tags"])]} if any(c in case["tags"] for c in cands) else {"err": "SystemSetupError"}
     if exp is not None and obs != exp and obs.get("err") != "TypeError":
         cls = "prior-minor-zero" if (exp.get("r") and re.match(r"^\d+\.0$", str(exp["r"][1]))) else "repo-precedence"
         ctx.fail(cls, "checked-out revision differs from documented choice", exp, obs)
@@ -309,7 +321,35 @@ def gen_repo(ctx):
         v = gen_version(rng)
         if v is None or not STRICT.match(v or "") or rng.random() < 0.3:
             v = rng.choice(["7.3.1", "7.8.0", "8.0.0", "7.6.2"])
-        yield {"remote": remote, "remote_branches": names() if remote else [], "local_branches": names(), "tags": tags, "v": v}
+        case = {"remote": remote, "remote_branches": names() if remote else [], "local_branches": names(), "tags": tags, "v": v}
+        if rng.random() < 0.35:
+            _tag_scenario(rng, case)
+        yield case
+
+
+def _tag_variants(v):
+    mt = STRICT.match(v)
+    M, mi, pa, sf = int(mt.group(1)), int(mt.group(2)), int(mt.group(3)), mt.group(4)
+    return ([f"v{M}.{mi}.{pa}-{sf}"] if sf else []) + [f"v{M}.{mi}.{pa}", f"v{M}.{mi}", f"v{M}"]
+
+
+def _tag_scenario(rng, case):
+    """no branch qualifies for the version (only branches of later majors and unrelated names), some of its v-tags exist — the
+    fall-back the property describes; versions come from a small pool so that one process resolves the same version many times"""
+    v = rng.choice(["7.3.1", "7.8.0", "6.8.1", "7.6.2", "6.8.1-SNAPSHOT", "7.3.1"])
+    M = int(v.split(".")[0])
+    later = [str(M + 1), f"{M + 1}.{rng.randrange(0, 3)}", f"{M + 2}", f"{M + 1}.0.{rng.randrange(0, 3)}", "docs", "wip", "feature-x"]
+    pick = lambda: [b for b in later if rng.random() < 0.4]
+    case["v"] = v
+    case["local_branches"] = pick()
+    if case["remote"]:
+        case["remote_branches"] = pick()
+    cands = _tag_variants(v)
+    tags = [t for t in cands if rng.random() < 0.5]
+    # decoys: tags of other versions, and the version without the v prefix
+    tags += [t for t in [f"v{M + 1}", f"v{M}.99", f"v{M - 1}", v.split("-")[0], f"v{M}.0.0"] if rng.random() < 0.3 and t not in tags]
+    rng.shuffle(tags)
+    case["tags"] = tags
 
 
 def run_repo(ctx, case):
@@ -333,7 +373,7 @@ def run_repo(ctx, case):
             for b in local_br:
                 _git(rdir, "branch", b, "origin/seed")
             for t in case["tags"]:
-                _git(rdir, "tag", t)
+                _mktag(rdir, t)
             local_seen = local_br + ["seed"]
             remote_seen = case["remote_branches"] + ["seed"]
         else:
@@ -443,7 +483,23 @@ def gen_repo_history(ctx):
             t = "v" + gen_branch(rng, weird=0.0)
             if t not in tags:
                 tags.append(t)
-        yield {"initial": initial, "epochs": epochs, "tags": tags}
+        case = {"initial": initial, "epochs": epochs, "tags": tags}
+        if rng.random() < 0.3:
+            # the clone carries v-tags of one version and the upstream only branches that never qualify for it: every invocation for that
+            # version falls back to the tags, several times in one process and on one clone
+            v = rng.choice(["7.3.1", "6.8.1", "7.6.2"])
+            M = int(v.split(".")[0])
+            keep = {str(M + 1), f"{M + 1}.1", f"{M + 2}", "docs", "wip"}
+            case["initial"] = [b for b in keep if rng.random() < 0.5]
+            for ep in epochs:
+                ep["add"], ep["delete"] = [], []
+                if rng.random() < 0.8:
+                    ep["v"] = v
+            cands = _tag_variants(v)
+            case["tags"] = [t for t in cands if rng.random() < 0.6] + [t for t in [f"v{M + 1}", f"v{M}.99"] if rng.random() < 0.3]
+            # a versioned local branch of a later major (else "newer than every versioned branch" holds vacuously and master is chosen)
+            case["local"] = [str(M + 1)] + ([f"{M + 2}.0"] if rng.random() < 0.3 else [])
+        yield case
 
 
 def run_repo_history(ctx, case):
@@ -460,7 +516,9 @@ def run_repo_history(ctx, case):
         _git(rdir, "config", "user.email", "v@example.org")
         _git(rdir, "config", "user.name", "v")
         for t in case["tags"]:
-            _git(rdir, "tag", t)
+            _mktag(rdir, t)
+        for b in case.get("local", []):
+            _git(rdir, "branch", b, "origin/seed")
         for k, ep in enumerate(case["epochs"]):
             for b in ep["add"]:
                 _git(origin, "branch", b, "seed")
